@@ -72,10 +72,18 @@ def _quant(run, n, sort, mk, q):
     run.frames[-1].env = dict(saved)
     for nm, c in zip(names, consts):
         run.frames[-1].env[nm] = mk(c)
+    pats = None
     try:
         body = to_bool_term(run.ev(lam.body))
+        if len(n.args) > 1 and isinstance(n.args[1], ast.Lambda):
+            # explicit trigger: forall_x(lambda i: body, lambda i: term)
+            t = run.ev(n.args[1].body)
+            ts = t.items if isinstance(t, TupleV) else [t]
+            pats = [z3.MultiPattern(*[x.term for x in ts])] if len(ts) > 1 else [ts[0].term]
     finally:
         run.frames[-1].env = saved
+    if pats is not None:
+        return BoolV(q(consts, body, patterns=pats))
     return BoolV(q(consts, body))
 
 
@@ -320,7 +328,7 @@ def _rs(v):
 def _rngstate(run, rng):
     """stream state of a _NumpyRNG object"""
     gen = run.deref(rng).fields['rng']
-    return run.deref(gen).fields['state']
+    return OpaqueV(LC._rs(run, gen), 'rngstate')
 
 
 @specfn('draw_u')
@@ -661,3 +669,27 @@ def _selrows(run, X, d, a):
     """rows of X whose decision is arm a"""
     la = _la()
     return MatV(la.msel(X.term, T.eqmask(_seq(run, d, 'A').term, a.term)))
+
+
+@form('is_first_argmax')
+def _is_first_argmax(run, n):
+    """is_first_argmax(r, arms, lambda a: expr): r is the first arm of `arms` attaining the maximum of expr"""
+    r = run.ev(n.args[0])
+    s = _seq(run, run.ev(n.args[1]), 'A')
+    lam = n.args[2]
+    a = smt.bound('afa', Arm)
+
+    def at(armterm):
+        saved = run.frames[-1].env
+        run.frames[-1].env = dict(saved)
+        run.frames[-1].env[lam.args.args[0].arg] = ArmV(armterm)
+        try:
+            return real(run.ev(lam.body))
+        finally:
+            run.frames[-1].env = saved
+    va, vr = at(a), at(r.term)
+    return BoolV(z3.And(T.amem(s.term, r.term),
+                        z3.ForAll([a], z3.Implies(T.amem(s.term, a),
+                                                  z3.And(va <= vr, z3.Implies(va == vr, T.apos(s.term, r.term) <=
+                                                                              T.apos(s.term, a)))),
+                                  patterns=[T.amem(s.term, a)])))
